@@ -27,6 +27,8 @@ def one(sid, seed):
     d = os.path.join(VERIF, "seeded", sid)
     meta = json.load(open(os.path.join(d, "meta.json")))
     checks = meta.get("caught_by") or [meta["property"]]
+    if meta.get("manifests_on_head") is False:
+        return {"id": sid, "not_expected": True, "checks": {}}
     wt = "/tmp/wt_regress_%s" % sid
     sh("git", "-C", REPO, "worktree", "remove", "--force", wt)
     r = sh("git", "-C", REPO, "worktree", "add", "--detach", wt, "HEAD")
@@ -79,6 +81,9 @@ def main():
         for out in ex.map(lambda s: one(s, seed), ids):
             if out.get("applies") is False:
                 print("%s does-not-apply %s" % (out["id"], out.get("error", "").strip().splitlines()[-1:]))
+                continue
+            if out.get("not_expected"):
+                print("%s NOT-EXPECTED (the change no longer breaks the property on this tree, see meta.json)" % out["id"], flush=True)
                 continue
             res = " ".join("%s:exit%d/%d" % (c, v["exit"], v["violations"]) for c, v in out["checks"].items())
             print("%s %s %s" % (out["id"], "CAUGHT" if out.get("caught") else "MISSED", res), flush=True)
